@@ -284,7 +284,7 @@ def run(ctx):
         lam = [n for n in iter_own(gt.node) if isinstance(n, ast.Call) and index.callee(gt.mod, n, gt) == cf.qual]
         ctx.need(lam, "_conform_filename call vanished from ground_truth")
         for c in lam:
-            kws = {k.arg: norm(k.value) for k in c.keywords}
+            kws = {k_: norm(v_) for k_, v_ in index.bound_args(gt.mod, c, gt).items()}
             ok = kws.get("filename") == "filename"
             ctx.ob("C12.targets", gt, "_conform_filename(filename={})".format(kws.get("filename")), ok, "" if ok else "target file is not the loop's filename", line=c.lineno)
             # every listed target is conformed: between the lambda mapped over the file list and the call there is no
